@@ -1,4 +1,5 @@
 import Beetswap.Proofs.CodecEmit
+import Beetswap.Proofs.CodecCheck
 /-!
 Frame layer: `Frame.decode` on valid frames, on strict prefixes, on bad length prefixes.
 -/
@@ -9,6 +10,7 @@ theorem maxMessageSize_lt : maxMessageSize < 2 ^ 32 := by decide
 
 theorem decode_enc_frame (body rest : List Nat) (m : Message)
     (hs : body.length ≤ maxMessageSize)
+    (hc : checkNesting (body.length + 1) body .message = true)
     (hp : parseMessage (body ++ rest) body.length = .ok m rest 0) :
     decode (Varint.enc body.length ++ (body ++ rest)) = .ok m rest := by
   have hlt : body.length < 2 ^ 64 := by have := maxMessageSize_lt; omega
@@ -19,14 +21,16 @@ theorem decode_enc_frame (body rest : List Nat) (m : Message)
     simp
   have h2 : ¬ body.length > maxMessageSize := by omega
   have h3 : ¬ (body ++ rest).length < body.length := by simp
-  simp only [h1, h2, h3, if_false, hp, List.drop_left']
+  simp only [h1, h2, h3, if_false, hp, List.drop_left', List.take_left', hc, Bool.not_true,
+    Bool.false_eq_true]
 
 theorem decode_valid_frame' (fs : List MsgFld) (h : MsgValid fs)
     (hs : (serMessage fs).length ≤ maxMessageSize) (rest : List Nat) :
     decode (uvar (serMessage fs).length ++ serMessage fs ++ rest)
       = .ok (interpMessage fs) rest := by
   rw [uvar_eq_enc', List.append_assoc]
-  exact decode_enc_frame _ _ _ hs (parseMessage_ser fs h.1 rest)
+  exact decode_enc_frame _ _ _ hs (check_serMessage fs _ h.1 (Nat.le_refl _))
+    (parseMessage_ser fs h.1 rest)
 
 theorem decode_encode' (m : Message) (h : MessageWF m) (hs : (encodeBody m).length < 2 ^ 32)
     (rest : List Nat) :
@@ -41,7 +45,10 @@ theorem frame_roundtrip' (m : Message) (h : MessageWF m) (hs : sizeMessage m ≤
   have hlt := maxMessageSize_lt
   unfold encode
   rw [sizeMessage_eq, List.append_assoc]
-  exact decode_enc_frame _ _ _ hs (decode_encode' m h (by omega) rest)
+  have hv := messageFields_valid' m h (by omega)
+  have hc := check_serMessage (messageFields m) _ hv.1 (Nat.le_refl _)
+  rw [← encodeBody_eq] at hc
+  exact decode_enc_frame _ _ _ hs hc (decode_encode' m h (by omega) rest)
 
 /-! ### strict prefixes -/
 
@@ -313,7 +320,9 @@ theorem needMore_bounded' (buf : List Nat) (h : decode buf = .needMore) :
         · rename_i h3
           have := enc_length_le_four (show len ≤ maxMessageSize by omega)
           omega
-        · split at h <;> cases h
+        · split at h
+          · cases h
+          · split at h <;> cases h
 
 theorem drain_none : ∀ (fuel : Nat) (buf : List Nat) (acc a : List Message) (b : List Nat),
     drain fuel buf acc = (a, b, none) → decode b = .needMore := by
